@@ -99,7 +99,7 @@ func (w *World) checkAnyWriters(r *Report, rule, pkgRel, typ, field string, allo
 }
 
 func checkC02(w *World, r *Report) {
-	r.Explanation = "Structural clause of C02: (V-1) balances, stake powers, delegatee totals and reward counters are written only by their closed sets of primitives, and the raw balance setter only by the EVM write-back; (V-2) every debit primitive call is paired on its success path with a credit of the SAME SSA value — transfer (with refund of the same value on failure), staking (stake power = AmountToPower of the debited amount, with the validation guard that the amount is a positive multiple of the power unit so the conversion is exact), the matured-stake refund (PowerToAmount(stake power) credited to the stake owner, then the frozen stake deleted, error before the delete), reward withdrawal (the same requested amount leaves the reward and reaches the balance), fees (C16); (V-3) negative (>= 2^255) amounts are rejected before anything else and the debit primitive refuses amounts above the balance; (V-4) every stake is constructed with a ledger key that is unique per construction (the transaction hash, or a loop-variant value); (V-5) the ledger returns through an overlay what was written through it and commits its net effect (C18 L-1: a value-carrying record that an overlay loses is value destroyed); (V-6) value moved inside the EVM reaches the native ledger: the block context's Transfer debits and credits the same amount, every address that enters the EVM's access list is synchronised in and recorded, RevertToSnapshot forgets exactly the addresses recorded after the snapshot, Finish writes every recorded address back (C17 E-0..E-2); (V-7) the fee of a contract transaction is credited once: the EVM is configured (NoBaseFee, zero fee cap and tip cap) so that go-ethereum pays nothing to the coinbase, the proposer being credited by EndBlock (C16 F-5); (V-8) the proposer is credited exactly the fees the senders paid in that block: the block's fee sum is an object of its own starting at zero, grows only by the fee of a successful delivery and is credited once (C16 F-4); (V-9) no copy of a value-carrying record decoded afresh from the committed tree is written over the overlay's own object (C01 D-6 stale-copy); (V-10) a contract transaction that fails moves no value: it is reverted to the snapshot taken before it before anything is written back (C05 A-4). V-10 also orders the write-back (Finish) before go-ethereum finalises the state, and requires every executed success exit of the EVM route to pass the message application."
+	r.Explanation = "Structural clause of C02: (V-1) balances, stake powers, delegatee totals and reward counters are written only by their closed sets of primitives, and the raw balance setter only by the EVM write-back; (V-2) every debit primitive call is paired on its success path with a credit of the SAME SSA value — transfer (with refund of the same value on failure), staking (stake power = AmountToPower of the debited amount, with the validation guard that the amount is a positive multiple of the power unit so the conversion is exact), the matured-stake refund (PowerToAmount(stake power) credited to the stake owner, then the frozen stake deleted, error before the delete), reward withdrawal (the same requested amount leaves the reward and reaches the balance), fees (C16); (V-3) negative (>= 2^255) amounts are rejected before anything else and the debit primitive refuses amounts above the balance; (V-4) every stake is constructed with a ledger key that is unique per construction (the transaction hash, or a loop-variant value); (V-5) the ledger returns through an overlay what was written through it and commits its net effect (C18 L-1: a value-carrying record that an overlay loses is value destroyed); (V-6) value moved inside the EVM reaches the native ledger: the block context's Transfer debits and credits the same amount, every address that enters the EVM's access list is synchronised in and recorded, RevertToSnapshot forgets exactly the addresses recorded after the snapshot, Finish writes every recorded address back (C17 E-0..E-2); (V-7) the fee of a contract transaction is credited once: the EVM is configured (NoBaseFee, zero fee cap and tip cap) so that go-ethereum pays nothing to the coinbase, the proposer being credited by EndBlock (C16 F-5); (V-8) the proposer is credited exactly the fees the senders paid in that block: the block's fee sum is an object of its own starting at zero, grows only by the fee of a successful delivery and is credited once (C16 F-4); (V-9) no copy of a value-carrying record decoded afresh from the committed tree is written over the overlay's own object (C01 D-6 stale-copy); (V-10) a contract transaction that fails moves no value: it is reverted to the snapshot taken before it before anything is written back (C05 A-4). V-10 also orders the write-back (Finish) before go-ethereum finalises the state, and requires every executed success exit of the EVM route to pass the message application. (V-12) the gas a successful native transaction reports — the figure the block's fee sum is built from — is the gas its sender was charged for, row by row of the (type, receiver-has-code, exec) table (C16 F-2)."
 	r.NotCovered = "the global sum itself; wrap-around of Balance.Add (needs total supply < 2^256, a runtime bound); conservation inside the EVM's interpreter (go-ethereum)."
 	v1(w, r)
 	v2(w, r)
@@ -119,6 +119,13 @@ func checkC02(w *World, r *Report) {
 	// V-7: a contract transaction's fee is credited once (by EndBlock), not also by the EVM (C16 F-5)
 	if r.importObs(w, func(t *Report) { f5(w, t) }, "F-5", "V-7") < 3 {
 		r.Undecided("V-7", "evm-coinbase", "the rule that the EVM pays no fee to the coinbase (C16 F-5) matched fewer than 3 constructs")
+	}
+	// V-12: ... and the amount that enters the fee sum for a transaction is the amount
+	// its sender was charged: for every (type, receiver-has-code, exec) row the gas
+	// reported by the post-run step is the gas the fee was computed from (C16 F-2).
+	// A success that reports less than it charged destroys the difference.
+	if r.importObs(w, func(t *Report) { routingTable(w, t, "F-2") }, "F-2", "V-12") < 18 {
+		r.Undecided("V-12", "fee-table", "the fee decision table (C16 F-2) produced fewer than 18 rows")
 	}
 	// V-8: what the senders paid in fees is what the proposer is credited: the fee sum
 	// starts at zero in an object of its own for every block, grows only by the fee of a
